@@ -19,7 +19,8 @@ EXTENDS Integers, Sequences, FiniteSets, TLC
 CONSTANTS Client,       \* keyed accounts that can send transactions
           Contract,     \* contract wallets
           MinerSC,      \* the miner contract wallet (receives fees)
-          MaxCoin,      \* largest representable balance (models 2^64-1)
+          MaxCoin,      \* largest representable balance (models 2^64-1); the *_nearmax configs set it BELOW
+                        \* MaxSupply so that credits a destination has no room for (ApplyOne) are reachable
           MaxSupply,    \* config.MaxTokenSupply
           MaxAmt,       \* bound for amounts in the model
           MaxNonce,     \* bound for nonces in the model
